@@ -1221,11 +1221,15 @@ func execReadFaults(t *testing.T, s *ev.Shard, b *sandbox.Box) *rp.Fail {
 				_, _ = f.WriteString(src[cut:])
 			}()
 			r := b.Run(b.Proj, nil, runTimeout, action)
-			if r.TimedOut {
-				// nobody opened the pipe for reading: unblock the writer
-				if f, err := os.OpenFile(path, os.O_RDONLY|syscall.O_NONBLOCK, 0); err == nil {
-					_ = f.Close()
-				}
+			// whether or not spok opened the pipe: a reader of our own lets the writer finish (it may still
+			// be waiting for someone to open the other end), and goes away once it has
+			unblock, _ := os.OpenFile(path, os.O_RDONLY|syscall.O_NONBLOCK, 0)
+			select {
+			case <-done:
+			case <-time.After(10 * time.Second):
+			}
+			if unblock != nil {
+				_ = unblock.Close()
 			}
 			<-done
 			if r.Exit == 0 && sandbox.Strip(r.Stdout) != baseline[action] {
